@@ -32,6 +32,7 @@ type c18Job struct {
 	Name string
 	Path string // "check" | "deliver"
 	Deep bool   `json:",omitempty"` // thorough tier: the menu also holds every PAIR of hostile leaves (reduced value sets)
+	Gov  string `json:",omitempty"` // phase "governance options": "key:value" installed before the target block ("?" = list the keys)
 }
 
 type c18Res struct {
@@ -42,6 +43,9 @@ type c18Res struct {
 	ProbeOK bool   // probe SEND behaved as usual afterwards
 	Probe   string // what went wrong with the probe
 	Halt    string // Tendermint would halt (invalid validator updates)
+	// phase "governance options"
+	GovApplied bool   `json:",omitempty"` // the application's update function accepted the value and wrote it
+	GovRefused string `json:",omitempty"`
 }
 
 type hostile struct {
@@ -409,6 +413,9 @@ func hostiles(t *harness.TxSpec, w *harness.World, deep bool) []hostile {
 }
 
 func c18Exec(j c18Job) c18Res {
+	if j.Gov != "" {
+		return c18GovExec(j)
+	}
 	h, err := buildHist(j.Scn, 0)
 	if err != nil {
 		return c18Res{Err: err.Error()}
@@ -592,11 +599,14 @@ func c18(args []string) int {
 			rep.Violation(fmt.Sprintf("C18|behaviour-changed|kind=%s|input=%s|path=%s", kind, j.Name, j.Path), fmt.Sprintf("hostile %s input %q (%s): %s", kind, j.Name, j.Path, r.Probe), j)
 		}
 	})
+	govStats := c18GovPhase(f, rep, deadline, keep, &done, &harnessErr, &errSamples, distinct)
+	skipped += govStats.skipped
 	var kl []string
 	for k := range kinds {
 		kl = append(kl, k)
 	}
 	sort.Strings(kl)
+	rep.Set("governance_option_phase", govStats.report)
 	rep.Set("evaluations", done)
 	rep.Set("distinct_nontrivial", len(distinct))
 	rep.Set("rule", "one evaluation = one hostile input (finite menu, enumerated completely per kind: every payload leaf x every hostile value of its class, every object/array node replaced, whole payload replaced, this payload under every other type, structural garbage, signature-list shapes, hostile fee values; payload variants are correctly re-signed) sent to CheckTx or delivered in a block of the real application in the state where the original is valid, followed by a probe SEND and two more blocks; all are distinct and non-trivial (each differs from the valid original)")
